@@ -125,7 +125,7 @@ def run(ctx):
             ctx.violation('filter_output:raised:%s' % type(exc).__name__, 'filter_output raised: %r' % (exc,), wit)
             continue
         trace = list(TRACE)
-        wrote = sorted(set(os.path.abspath(p) for p in tr.written(under=d)))
+        wrote = sorted(set(os.path.abspath(p) for p in tr.produced(under=d)))
         if wrote != sorted([os.path.abspath(g), os.path.abspath(b)]):
             ctx.violation('files:not-exactly-two', 'filter_output did not write exactly the two output files at the expected names',
                           dict(wit, written=[os.path.basename(x) for x in wrote], expected=[os.path.basename(g), os.path.basename(b)]))
@@ -161,7 +161,7 @@ def run(ctx):
                 if dd:
                     ctx.violation('split:record-altered', 'a record in an output differs from the input record: %s' % dd, dict(wit, source=r['source']['name']))
                     break
-            if tw[os.path.abspath(g)] != gn or tw[os.path.abspath(b)] != bnm:
+            if trace and (tw[os.path.abspath(g)] != gn or tw[os.path.abspath(b)] != bnm):
                 ctx.violation('trace:writes-vs-files', 'write events per writer do not match what the files contain', dict(wit, trace=trace[:12]))
         ctx.case(('fo', ic, ctx.shard), nontrivial=n_src >= 2, sample=dict(wit, good=gn, bad=bnm) if ic < 2 else None)
         for p_ in (path, g, b):
